@@ -308,6 +308,43 @@ theorem not_partial_prefix_full : ¬ partial_prefix_full := by
     witness_B_radix24_syntax.2] at this
   cases this
 
+/-! ## regressions of the two repaired counting defects (/repo 7e8a135, 12a2453)
+
+Formats whose separator flags sit on some components only (here: `_` allowed between fraction digits only,
+`c13_dec_fra_i`): the integer iterator is contiguous while the buffer is not. Before the repairs the digits of the
+8-digit fast loop were not counted (`12345678` → `EmptyMantissa` from the complete AND the partial parser — both
+relations of C11 held vacuously on such inputs); now both entry points return the value and the two relations hold
+with content. -/
+
+def fmtSepFracI : Format := ⟨0xa0a0a000000005f000000020000000c⟩   -- c13_dec_fra_i
+
+/-- (A) on `12345678`: complete = 12345678.0, partial = (12345678.0, 8 = length) -/
+theorem regression_A_sep_format_8digit_block :
+    parseFloatModel featsRadixFormat fmtSepFracI {} false f64 [49, 50, 51, 52, 53, 54, 55, 56]
+      = "ok 41678c29c0000000 -" ∧
+    parseFloatModel featsRadixFormat fmtSepFracI {} true f64 [49, 50, 51, 52, 53, 54, 55, 56]
+      = "ok 41678c29c0000000 8" := by decide +kernel
+
+/-- (B) on `12345678x`: partial = (12345678.0, 8), complete on the first 8 bytes = 12345678.0; and through the fraction
+separator: partial `123456789.1_2x` = (123456789.12, 13) = complete `123456789.1_2` -/
+theorem regression_B_sep_format_8digit_block :
+    (parseFloatModel featsRadixFormat fmtSepFracI {} true f64 [49, 50, 51, 52, 53, 54, 55, 56, 120]
+      = "ok 41678c29c0000000 8" ∧
+     parseFloatModel featsRadixFormat fmtSepFracI {} false f64 ([49, 50, 51, 52, 53, 54, 55, 56, 120].take 8)
+      = "ok 41678c29c0000000 -") ∧
+    (parseFloatModel featsRadixFormat fmtSepFracI {} true f64 [49, 50, 51, 52, 53, 54, 55, 56, 57, 46, 49, 95, 50, 120]
+      = "ok 419d6f34547ae148 13" ∧
+     parseFloatModel featsRadixFormat fmtSepFracI {} false f64
+        ([49, 50, 51, 52, 53, 54, 55, 56, 57, 46, 49, 95, 50, 120].take 13) = "ok 419d6f34547ae148 -") := by
+  decide +kernel
+
+/-- the same on the syntax layer: the number carries all eight integer digits -/
+theorem regression_sep_format_syntax :
+    parseFloatSyntax ⟨featsRadixFormat, fmtSepFracI, false⟩ {} true [49, 50, 51, 52, 53, 54, 55, 56, 120]
+      = .ok (.number ⟨12345678, 0, false, false, [49, 50, 51, 52, 53, 54, 55, 56], none, 0⟩ 8) ∧
+    parseFloatSyntax ⟨featsRadixFormat, fmtSepFracI, false⟩ {} false [49, 50, 51, 52, 53, 54, 55, 56]
+      = .ok (.number ⟨12345678, 0, false, false, [49, 50, 51, 52, 53, 54, 55, 56], none, 0⟩ 8) := by decide +kernel
+
 /-! ## (B) proved part 1: truncation of the phases of `parse_number`
 
 Setting: release build, no digit-separator byte (`Rel c`, `c.bytesContiguous`): the build without the `format`
